@@ -36,7 +36,7 @@ def run(ctx, only=None):
     ctx.trusted.append("asyncio.Condition / asyncio.sleep wake-ups are modelled as ANotify / ATimeout actions; "
                        "EventEnvelopeWithMetadata.from_event supplies type/types (real code)")
     rng = random.Random(ctx.seed * 7919 + 16)
-    n = ctx.n(50, 1000)
+    n = ctx.n(50, 800)
     cases = only or [EL.gen_case(rng) for _ in range(n)]
     exprs, meta, fails = [], [], []
     tot = {}
@@ -67,12 +67,13 @@ def run(ctx, only=None):
         ref = obs_by_backend["memory"]
         for b in backends[1:]:
             for r in EL.RUNS:
-                if obs_by_backend[b].obs[r] != ref.obs[r]:
-                    j = next(i for i, (x, y) in enumerate(zip(ref.obs[r], obs_by_backend[b].obs[r])) if x != y)
+                oa, ob = ref.obs[r], obs_by_backend[b].obs[r]
+                if oa != ob:
+                    j = next((i for i, (x, y) in enumerate(zip(oa, ob)) if x != y), min(len(oa), len(ob)))
                     fails.append(dict(key="C16/backend-divergence", backend="memory vs " + b, ops=ops, case=ci,
                                       what="run %s, op #%d %r: memory observed %r, %s observed %r"
-                                           % (r, j, EL.project(ops, r)[j], ref.obs[r][j], b,
-                                              obs_by_backend[b].obs[r][j])))
+                                           % (r, j, EL.project(ops, r)[j], oa[j] if j < len(oa) else "(nothing)", b,
+                                              ob[j] if j < len(ob) else "(nothing)")))
         per_backend_obs.append(obs_by_backend)
         if ci < 3:
             ctx.sample(dict(ops=[list(o) for o in ops[:14]], n_ops=len(ops),
